@@ -318,8 +318,26 @@ func TestC07MsgDataEnum(t *testing.T) {
 			}
 		}
 	}
+	// boundary values of the 32-bit length field (every combination of
+	// boundary bytes, so that header length + payload length wraps in 32 bits,
+	// reaches the sign bit, or is just above / below the real body length)
+	bv := []byte{0x00, 0x01, 0x02, 0x7f, 0x80, 0xfa, 0xfb, 0xfc, 0xfd, 0xfe, 0xff}
+	for _, ver := range []byte{0, 1, 0xff} {
+		for _, b1 := range bv {
+			for _, b2 := range bv {
+				for _, b3 := range bv {
+					for _, b4 := range bv {
+						for _, body := range []int{0, 1, 2, 4, 5, 250, 260} {
+							h := []byte{ver, b1, b2, b3, b4}
+							try(append(h, make([]byte, body)...))
+						}
+					}
+				}
+			}
+		}
+	}
 	rec.CaseN(total, total, "C07MsgDataEnum", "msgdata_enum")
-	rec.Sample(map[string]any{"enumerated": "MsgData.Deserialize: all byte strings <= 2, 16 first-byte values x all 2-byte tails, every value of each length byte with bodies 0..3", "count": total})
+	rec.Sample(map[string]any{"enumerated": "MsgData.Deserialize: all byte strings <= 2, 16 first-byte values x all 2-byte tails, every value of each length byte with bodies 0..3, all 11^4 combinations of boundary bytes in the length field x 3 versions x 7 body lengths", "count": total})
 	rec.SetExhaustive(true)
 	rec.Done()
 	if nviol > 0 {
